@@ -242,6 +242,29 @@ func famPeers(w *World) {
 				lists[li].SetStrategy(tchannel.ScoreCalculatorFunc(f))
 				checkList(li, "SetStrategy custom")
 			}
+		case 9: // Add racing with the peer's connection coming up (or a strategy change)
+			how := scn(3)
+			w.tasks(func() {
+				lists[li].Add(s.HostPort)
+			}, func() {
+				ctx, cancel := context.WithTimeout(context.Background(), time.Second)
+				switch how {
+				case 0:
+					me.Ch.Connect(ctx, s.HostPort)
+				case 1:
+					s.Ch.Connect(ctx, me.HostPort)
+				default:
+					if !custom[li] {
+						me.Ch.Connect(ctx, s.HostPort)
+					}
+				}
+				cancel()
+			})
+			model[li][s.HostPort] = true
+			w.probe("C15.add-racing-with-connection")
+			settle()
+			checkList(0, "Add racing with a connection to "+s.HostPort)
+			checkList(1, "Add racing with a connection to "+s.HostPort)
 		default: // selection
 			prev := map[string]struct{}{}
 			for _, hp := range sortedKeys(model[li]) {
